@@ -103,6 +103,17 @@ class ClampFacts:
             if ev["kind"] == "if":
                 last_if[id(ev["node"])] = ev.get("cond")
                 continue
+            if ev["kind"] == "ifexpr_phi":
+                # the expression form `v = if |v| > B { A } else { v }` (or with the test and the arms the other way round)
+                cv = ev.get("cond")
+                ca = cv.single_atom() if isinstance(cv, Poly) else None
+                d = DEFS.get(ca) if ca else None
+                if d is not None and d[0] in ("gt", "ge", "lt", "le") and len(d[1]) == 2 and all(isinstance(q, Poly) for q in d[1]):
+                    big, small = (d[1][0], d[1][1]) if d[0] in ("gt", "ge") else (d[1][1], d[1][0])      # big > small in the then-arm
+                    self.phi_bound.setdefault(ev["atom"], []).append((big, small, ev["v_then"], ev["v_else"]))
+                    # negated test: `if |v| <= B { v } else { A }` - in the else-arm the other side is the larger one
+                    self.phi_bound[ev["atom"]].append((small, big, ev["v_else"], ev["v_then"]))
+                continue
             if ev["kind"] != "joinphi":
                 continue
             n = ev["node"]
